@@ -15,7 +15,7 @@ LEVEL = "exploration"
 RULE = (
     "case = sealed history (1-5 generations on monotonically growing content, changing format sets, optional -i patterns, "
     "0-2 nested histories created child-first or parent-first) x mutation set (0-3 of: alter a recorded file by "
-    "flip/append/truncate/replace, remove a recorded file or empty directory, add a file, benign: touch / edit / add / "
+    "flip/append/truncate/replace, remove a recorded file or empty directory, add a file (also one whose path differs only in case from a recorded one), benign: touch / edit / add / "
     "remove ignored files) x {verify, diff, create}; class = (nesting, generations, fault-class set, command, exit code)"
 )
 ASSUMPTIONS = [
